@@ -127,7 +127,10 @@ def _work(args):
             # any more, and a broken tree must not keep the check running for hours.  (Never triggers on a tree
             # where everything is proved: nothing is confirmed there.)
             confirmed = any(o.get("reproduced") for o in out["obligations"])
-            short = confirmed and time.time() - t_start > 120
+            # likewise once three obligations of the function are undecided: the function cannot come out proved any more,
+            # the remaining ones are still checked (a refutation would matter) but with the short budget
+            stuck = sum(1 for o in out["obligations"] if o["verdict"] == "unknown") >= 3
+            short = (confirmed or stuck) and time.time() - t_start > 120
             solve.discharge(ob, axioms, use_cvc5=not short, both=(tier == "thorough" and not short), budget_ms=3000 if short else None)
             rec = {
                 "name": ob.name,
